@@ -585,12 +585,17 @@ int hwloc_topology_diff_apply(hwloc_topology_t topology,
 	return 0;
 
 cancel:
-	tmpdiff2 = tmpdiff;
-	tmpdiff = diff;
-	while (tmpdiff != tmpdiff2) {
-		hwloc_apply_diff_one(topology, tmpdiff, flags ^ HWLOC_TOPOLOGY_DIFF_APPLY_REVERSE);
-		tmpdiff = tmpdiff->generic.next;
+	/* unapply the nr-1 elements that were applied, last one first,
+	 * so that each of them finds the value it wrote
+	 */
+	err = -nr;
+	while (--nr > 0) {
+		int i;
+		tmpdiff2 = diff;
+		for(i=1; i<nr; i++)
+			tmpdiff2 = tmpdiff2->generic.next;
+		hwloc_apply_diff_one(topology, tmpdiff2, flags ^ HWLOC_TOPOLOGY_DIFF_APPLY_REVERSE);
 	}
 	errno = EINVAL;
-	return -nr; /* return the index (starting at 1) of the first element that couldn't be applied */
+	return err; /* return the index (starting at 1) of the first element that couldn't be applied */
 }
